@@ -32,7 +32,8 @@ class C16(Prop):
                  "yield site for push || consume. Correspondence: the real AtomicSamplingReservoir is run with a scripted replacement of "
                  "the random draw that records every requested bound (sequential histories), and under the deterministic scheduler "
                  "through yield points 1601-1612 (schedule replay); outputs compared with the model per operation / per step. Two free-running "
-                 "engines (no script, no scheduler, real RNG) run as sanity checks: per-position retention frequencies within 6 sigma of cap/n, "
+                 "engines (no script, no scheduler, real RNG) run as sanity checks: per-position retention frequencies within 6 sigma of cap/n, on one "
+                 "thread and with every trial on a fresh thread (plus the coincidence rate of consecutive fresh-thread outcomes), "
                  "and a pushers || consumer stress judged only by what holds even inside the open late-push class")
     level_text = ("Theorems (Coq). Sequential, all capacities incl. 0 and 1, all histories, all f64 bit patterns, all choices: the model of "
                   "Reservoir/Drain/AtomicSamplingReservoir (after the fix) equals the reference semantics (C16_model_meets_spec); a drain after "
@@ -54,7 +55,9 @@ class C16(Prop):
                   "cases is NOT proved (it needs a refinement between the walker's trace windows and the ghost ledgers); spec_ok is evaluated on every "
                   "replayed schedule instead (the implementation's own traces) and "
                   "held on all of them, failing only inside the open known class C16-late-push. Uniformity is conditional on rand's random_range "
-                  "being uniform on the requested range (trusted; the hook only checks the range requested); under concurrency uniformity is not "
+                  "being uniform on the requested range AND on the thread-local generators being seeded independently per thread (both trusted by the "
+                  "theorem; the hook only checks the range requested; both are SAMPLED per run: single-thread and fresh-thread retention trials within "
+                  "6 sigma of cap/n, and consecutive fresh-thread trials coincide with the collision probability of independent runs); under concurrency uniformity is not "
                   "claimed (stores of concurrent pushes may land out of idx order). SC interleaving, Relaxed/Acquire/Release not modelled. "
                   "Schedule replay uses ONE consumer thread (a second consumer would block inside Mutex::lock, which the scheduler cannot step); the "
                   "machine models the mutex as a stutter. usize wrap of the counter at 2^64 not modelled. Sample rates are compared as IEEE "
@@ -65,6 +68,7 @@ class C16(Prop):
             "bursty/out-of-range/operation-atomic schedules + round-robin tail; non-trivial = contains a drain (seq) or both a fetch_add and a "
             "side swap (threaded); distinct = distinct (capacity, per-op outcome shape, choice residues) resp. (programs shape, step trace)")
     assumptions = ["rand::Rng::random_range(0..upper) is uniform on [0, upper) (uniform retention is stated over the requested bounds)",
+                   "the thread-local generator behind fastrand is seeded independently for every thread (sampled by the fresh-thread trials, not proved)",
                    "counts stay below 2^53 (sample rate doubles exact) and below 2^64 (no usize wrap)",
                    "SC memory model for the threaded runs; yield hooks placed before each shared access of reservoir.rs",
                    "the scripted draw of the cfg(metrics_verif) hook returns script[k] mod upper, i.e. always a value a real RNG could return"]
